@@ -189,4 +189,16 @@ example :
     ¬ IOSession.OneSpecPerValue st 0 ∧ (IOSession.closeModel st 0).ios.any (fun io => io.group == some 0) = true := by
   decide +kernel
 
+/-- the same for a whole session: when no session-wide file object serves two models (`AbsPrivateAll`, a decidable
+predicate on the state reached), closing ANY model leaves `iospecs` of EVERY other model as they were -/
+theorem close_leaves_other_models_specs_private_session (ops : List IOSession.Op)
+    (hall : IOSession.AbsPrivateAll (IOSession.run {} ops)) (m m' : Nat) (hne : m ≠ m') :
+    IOSession.specsOf (IOSession.closeModel (IOSession.run {} ops) m) m' =
+      IOSession.specsOf (IOSession.run {} ops) m' :=
+  (IOSession.closeModel_frame _ m m' hne (IOSession.reachable_inv ops).det
+    (IOSession.absPrivate_of_all (IOSession.reachable_inv ops) hall m m' hne)).1
+
+example : IOSession.AbsPrivateAll IOSession.demo ∧ ¬ IOSession.AbsPrivateAll IOSession.sharedValue ∧
+    ¬ IOSession.AbsPrivateAll IOSession.sharedPath := by decide +kernel
+
 end MxModel.C19
